@@ -93,6 +93,16 @@ def observe(seed):
     md, ref, rng = gen_model(seed, OPTS)
     if md is None or not md['desvars'] or not md['responses']:
         return {'skip': 'rejected'}
+    if seed % 3 == 0:
+        # a state that is reached from the design variables only through its coupling with the other state of its
+        # component becomes the ONLY response when that other state is consumed elsewhere (by components that then lead to
+        # no response): relevance must keep the coupling
+        for c in md['comps']:
+            if c['kind'] == 'bil' and c['storage'][1] and all(st == 'rowscols' for st in c['storage'][1]) and \
+                    any(i['src'] == c['outs'][0] for i in md['ins']):
+                r0 = dict(md['responses'][0], oid=c['outs'][1], indices_term=None, flat_indices=False)
+                md['responses'] = [r0]
+                break
     order = __import__('vf.modelgen', fromlist=['x']).eval_order(md)
     cpos = {cid: k + 1 for k, cid in enumerate(order)}
     cfgs, rel, meta = [], [], []
